@@ -55,17 +55,43 @@ def gen_oceanic(rng, i):
             spec['ridge'] = ('line', a, b)
         m['ridge coordinates'] = ridge
     f = {'model': 'oceanic plate', 'name': 'plate', 'coordinates': [list(p) for p in poly], 'max depth': wg.R(L * rng.choice([1.0, 1.0, 1.5])), 'temperature models': [m]}
+    listed = []
+    if rng.random() < 0.4:
+        # the plate thickness as a surface: L at the corners, thinner at one to three listed interior points; the same surface for the
+        # feature and the model, so that the tag says where the model applies (depth <= local thickness)
+        surf = [[L]]
+        for _ in range(rng.randint(1, 3)):
+            px, py = wg.R(cx + rng.uniform(-0.7, 0.7) * hw), (0.0 if sph else wg.R(cy + rng.uniform(-0.7, 0.7) * hw))
+            if sph:
+                py = wg.R(rng.uniform(-0.5, 0.5) * hw)
+            surf.append([wg.R(L * rng.uniform(0.3, 0.95)), [[px, py]]])
+            listed.append((px, py))
+        f['max depth'] = surf
+        m['max depth'] = surf
+        spec['variable_thickness'] = True
     doc['features'] = [f]
     fn = 'o%d.wb' % i
     c = core.Case('o%d' % i, files={fn: wg.dumps(doc)})
     world(c, 1, core.workfile(PID, fn))
     profiles = []
-    fd = f['max depth']
+    fd = f['max depth'] if not listed else L
     depth_list = sorted(set([0.0, L, min(L, fd)] + [wg.R(rng.uniform(0, min(L, fd))) for _ in range(14)] + [min(L, fd) * x for x in (0.001, 0.01, 0.05)]))
     depth_list = [d for d in depth_list if d <= min(L, fd)]
-    for _ in range(6):
-        # a surface point inside the plate
-        if sph:
+    for ip in range(6 + len(listed)):
+        # a surface point inside the plate (and the listed points of a thickness surface)
+        if ip >= 6:
+            sx, sy = listed[ip - 6]
+            dist = None
+            if sph and 'ridge' in spec:
+                # great circle distance to the ridge meridian (only used for the age in the truncation bound)
+                dist = ctx.R * abs(math.asin(math.cos(math.radians(sy)) * math.sin(math.radians(sx - spec['ridge'][1]))))
+            if not sph and 'ridge' in spec:
+                (ax, ay), (bx, by) = spec['ridge'][1], spec['ridge'][2]
+                dist = abs((sx - ax) * (by - ay) - (sy - ay) * (bx - ax)) / math.hypot(bx - ax, by - ay)
+            prof = [(d, q3(c, 1, ctx, sx, sy, d, PROPS)) for d in depth_list]
+            profiles.append({'kind': 'depth', 'surface': (sx, sy), 'dist': dist, 'probes': prof})
+            continue
+        elif sph:
             sx, sy = wg.R(rng.uniform(cx - 0.9 * hw, cx + 0.9 * hw)), 0.0
             dist = (ctx.R) * abs(math.radians(sx - spec['ridge'][1])) if 'ridge' in spec else None
         else:
@@ -185,7 +211,7 @@ def check_oceanic(V, c, t):
                     if abs(T - Tt) > slack:
                         V.violation('top-temperature-not-attained:oceanic:%s' % name, detail)
                     V.nontrivial(('top', t['fn'], prof['surface']))
-                if d == L and name != 'half space model' and d <= t['feature_max_depth']:
+                if d == L and name != 'half space model' and d <= t['feature_max_depth'] and not spec.get('variable_thickness'):
                     if abs(T - Tb) > 1e-9 * Tb + 1e-6:
                         V.violation('bottom-temperature-not-attained:oceanic:%s' % name, detail)
                     V.nontrivial(('bottom', t['fn'], prof['surface']))
